@@ -123,6 +123,7 @@ func (c *Collection) StartDCPFeed(
 		feed.events.push(nil) // push an eof
 	} else {
 		// Register the feed with the collection for future notifications:
+		verifPoint("feed.registered")
 		c.bucket.mutex.Lock()
 		c.bucket.collectionFeeds[c.DataStoreNameImpl] = append(c.bucket.collectionFeeds[c.DataStoreNameImpl], feed)
 		c.bucket.mutex.Unlock()
